@@ -62,6 +62,18 @@ func (b *gateBoard) open() { // let everything through from now on
 	b.mu.Unlock()
 }
 
+// gatedWriter holds the handler between "response marshalled" and "response written": every dump path calls
+// WriteHeader(200) right before it writes the body
+type gatedWriter struct {
+	*httptest.ResponseRecorder
+	b *gateBoard
+}
+
+func (g *gatedWriter) WriteHeader(code int) {
+	g.b.gate("resp.write", 0)
+	g.ResponseRecorder.WriteHeader(code)
+}
+
 func runRace() {
 	g := BuildGraph()
 	gen := &Gen{g: g}
@@ -101,7 +113,7 @@ func runRace() {
 		}
 		before := liveFacts()
 
-		board := newBoard("cfg.transfer.snapshot", "cfg.transfer.stored", "cfg.redact.copied", "cfg.redact.done")
+		board := newBoard("cfg.transfer.snapshot", "cfg.transfer.stored", "cfg.redact.copied", "cfg.redact.done", "resp.write")
 		verifhook.SetGate(board.gate)
 		var persisted []byte
 		var body string
@@ -115,7 +127,7 @@ func runRace() {
 		startD := func() {
 			go func() {
 				req := httptest.NewRequest("GET", "http://127.0.0.1/api/v1/config_dump"+endpointQuery[c.E], nil)
-				w := httptest.NewRecorder()
+				w := &gatedWriter{ResponseRecorder: httptest.NewRecorder(), b: board}
 				admin.ConfigDump(w, req)
 				body = w.Body.String()
 				close(dDone)
@@ -161,6 +173,9 @@ func runRace() {
 				waitArrive("cfg.redact.done")
 			case "Rm":
 				board.release["cfg.redact.done"] <- struct{}{}
+				waitArrive("resp.write")
+			case "Rw":
+				board.release["resp.write"] <- struct{}{}
 				waitDone(dDone)
 			}
 			if !diverged {
